@@ -90,6 +90,11 @@ impl CacheMemoryTracker {
         }
     }
 
+    #[cfg(feature = "iggy_verif")]
+    pub(crate) fn verif_reset_usage(&self) {
+        self.used_memory_bytes.store(0, Ordering::SeqCst);
+    }
+
     pub fn usage_bytes(&self) -> IggyByteSize {
         IggyByteSize::from(self.used_memory_bytes.load(Ordering::SeqCst))
     }
